@@ -145,6 +145,12 @@ def _const_int(t):
         return t[1]
     if t.tag == 'cast':
         return _const_int(t[2])
+    if t.tag == 'binop' and t[1] in ('Add', 'Sub', 'Mul'):
+        # arithmetic on constants (`SERIALIZED_ELEMENT_SIZE - 1`)
+        a, b = _const_int(t[2]), _const_int(t[3])
+        if a is not None and b is not None:
+            r = a + b if t[1] == 'Add' else a - b if t[1] == 'Sub' else a * b
+            return r if r >= 0 else None
     return None
 
 
